@@ -251,6 +251,29 @@ pub(crate) fn protocol<P: Propagator>(
     backtrack_first: bool,
     max_calls: usize,
 ) -> Outcome {
+    protocol_impl::<P, true>(propagator, n, changes, backtrack_first, max_calls)
+}
+
+/// The same without cover points: each cover point is one more SAT call on the full formula, which
+/// the heaviest harnesses cannot afford (measured: element runs out of memory in the cover phase
+/// after all assertions have been discharged).
+pub(crate) fn protocol_no_covers<P: Propagator>(
+    propagator: &mut P,
+    n: usize,
+    changes: &[Change],
+    backtrack_first: bool,
+    max_calls: usize,
+) -> Outcome {
+    protocol_impl::<P, false>(propagator, n, changes, backtrack_first, max_calls)
+}
+
+fn protocol_impl<P: Propagator, const COVERS: bool>(
+    propagator: &mut P,
+    n: usize,
+    changes: &[Change],
+    backtrack_first: bool,
+    max_calls: usize,
+) -> Outcome {
     let mut env = Env::new();
     unroll!(d in [1, 2, 3, 4] {
         if d <= n {
@@ -262,7 +285,6 @@ pub(crate) fn protocol<P: Propagator>(
     monitor::check_init_outcome(&init, env.assignments);
     let root_conflict = init.is_err();
     core::mem::forget(init);
-    kani::cover!(root_conflict, "root conflict");
     let mut outcome = Outcome {
         ok: !root_conflict,
         pending: false,
@@ -272,12 +294,13 @@ pub(crate) fn protocol<P: Propagator>(
         let (ok, pending) = env.run_queue(propagator, n, true, max_calls);
         outcome.ok = ok;
         outcome.pending = pending;
-        kani::cover!(!ok, "conflict at posting");
-        kani::cover!(unsafe { monitor::PROPAGATIONS } > 0, "propagation at posting");
-        kani::cover!(
-            ok && unsafe { monitor::PROPAGATIONS } > 0 && unsafe { monitor::W_OK },
-            "propagation at posting with live witness"
-        );
+        // (every cover point is one more SAT call on the full formula: two per harness)
+        if COVERS {
+            kani::cover!(
+                ok && unsafe { monitor::PROPAGATIONS } > 0 && unsafe { monitor::W_OK },
+                "propagation at posting with live witness"
+            );
+        }
         assert!(changes.len() <= 2, "[HARNESS] at most two changes");
         unroll!(index in [0, 1] {
             if index < changes.len() && outcome.ok {
@@ -293,11 +316,12 @@ pub(crate) fn protocol<P: Propagator>(
                 let (ok, pending) = env.run_queue(propagator, n, enqueued, max_calls);
                 outcome.ok = ok;
                 outcome.pending = pending;
-                kani::cover!(!ok, "conflict after a change");
-                kani::cover!(
-                    unsafe { monitor::PROPAGATIONS } > before,
-                    "propagation after a change"
-                );
+                if COVERS {
+                    kani::cover!(
+                        unsafe { monitor::PROPAGATIONS } > before,
+                        "propagation after a change"
+                    );
+                }
                 if undo {
                     let mut removed_flags = [false; shadow::NV];
                     removed_flags[change.k] = removed;
@@ -325,6 +349,57 @@ pub(crate) fn protocol<P: Propagator>(
     }
     // lazily computed reasons are evaluated again in the final (later) state
     monitor::recheck_lazy(env.assignments);
+    env.forget();
+    outcome
+}
+
+/// A history the engine produces when a conflict elsewhere interrupts propagation: the
+/// propagator is posted and propagated, a change is notified (the propagator is enqueued but does
+/// NOT run), the engine backtracks over that change (real `synchronise` / `notify_backtrack`),
+/// then a second change is notified and the propagator finally runs. State cached in `notify`
+/// (e.g. the reified wrapper's inconsistency) must not survive the backtrack.
+pub(crate) fn protocol_interrupted<P: Propagator>(
+    propagator: &mut P,
+    n: usize,
+    first: &Change,
+    second: &Change,
+) -> Outcome {
+    let mut env = Env::new();
+    unroll!(d in [1, 2, 3, 4] {
+        if d <= n {
+            let _ = shadow::take_events(d);
+        }
+    });
+    let init = propagator.initialise_at_root(&mut env.init_ctx());
+    monitor::check_init_outcome(&init, env.assignments);
+    let root_conflict = init.is_err();
+    core::mem::forget(init);
+    let mut outcome = Outcome { ok: !root_conflict, pending: false, root_conflict };
+    if !root_conflict {
+        let (ok, pending) = env.run_queue(propagator, n, true, 1);
+        outcome.ok = ok;
+        outcome.pending = pending;
+        if ok {
+            let w_ok_before = unsafe { monitor::W_OK };
+            env.push_level();
+            let removed = first.apply();
+            let _ = env.notify_pending(propagator, n);
+            kani::cover!(true, "change notified, propagation interrupted");
+            let mut removed_flags = [false; shadow::NV];
+            removed_flags[first.k] = removed;
+            env.backtrack(propagator, n, &removed_flags);
+            unsafe {
+                monitor::W_OK = w_ok_before;
+            }
+            let _ = second.apply();
+            let before = unsafe { monitor::PROPAGATIONS };
+            let enqueued = env.notify_pending(propagator, n) || pending;
+            let (ok, pending) = env.run_queue(propagator, n, enqueued, 1);
+            outcome.ok = ok;
+            outcome.pending = pending;
+            kani::cover!(unsafe { monitor::PROPAGATIONS } > before, "propagation after the backtrack");
+        }
+    }
     env.forget();
     outcome
 }
@@ -371,6 +446,34 @@ macro_rules! verif_harness {
         #[kani::stub(crate::engine::Assignments::remove_value_from_domain, crate::engine::Assignments::stub_remove_value_from_domain)]
         #[kani::stub(crate::engine::Assignments::make_assignment, crate::engine::Assignments::stub_make_assignment)]
         #[kani::stub(<crate::engine::IntegerDomainIterator as core::iter::Iterator>::next, crate::engine::IntegerDomainIterator::stub_next)]
+        #[kani::stub(crate::engine::TrailedAssignments::grow, crate::engine::TrailedAssignments::stub_grow)]
+        #[kani::stub(crate::engine::TrailedAssignments::read, crate::engine::TrailedAssignments::stub_read)]
+        #[kani::stub(crate::engine::TrailedAssignments::add_assign, crate::engine::TrailedAssignments::stub_add_assign)]
+        #[kani::stub(crate::engine::TrailedAssignments::assign, crate::engine::TrailedAssignments::stub_assign)]
+        #[kani::stub(crate::engine::TrailedAssignments::increase_decision_level, crate::engine::TrailedAssignments::stub_increase_decision_level)]
+        #[kani::stub(crate::engine::TrailedAssignments::synchronise, crate::engine::TrailedAssignments::stub_synchronise)]
+        #[kani::stub(crate::engine::reason::ReasonStore::push, crate::engine::reason::ReasonStore::stub_push)]
+        #[kani::stub(crate::engine::propagation::PropagatorInitialisationContext::register, crate::engine::propagation::PropagatorInitialisationContext::stub_register)]
+        #[kani::stub(crate::engine::Watchers::watch_all, crate::engine::Watchers::stub_watch_all)]
+        #[kani::stub(crate::engine::Watchers::watch_all_backtrack, crate::engine::Watchers::stub_watch_all_backtrack)]
+        #[kani::stub(alloc::fmt::format, crate::verif_kani::env::stub_format)]
+        pub(crate) fn $name() $body
+    };
+}
+/// The same stubs without S7: the trailed integers stay the real `TrailedAssignments`.
+#[cfg(kani)]
+macro_rules! verif_harness_real_trailed {
+    ($(#[$meta:meta])* fn $name:ident() $body:block) => {
+        #[kani::proof]
+        $(#[$meta])*
+        #[kani::stub(crate::engine::Assignments::get_lower_bound, crate::engine::Assignments::stub_get_lower_bound)]
+        #[kani::stub(crate::engine::Assignments::get_upper_bound, crate::engine::Assignments::stub_get_upper_bound)]
+        #[kani::stub(crate::engine::Assignments::is_value_in_domain, crate::engine::Assignments::stub_is_value_in_domain)]
+        #[kani::stub(crate::engine::Assignments::tighten_lower_bound, crate::engine::Assignments::stub_tighten_lower_bound)]
+        #[kani::stub(crate::engine::Assignments::tighten_upper_bound, crate::engine::Assignments::stub_tighten_upper_bound)]
+        #[kani::stub(crate::engine::Assignments::remove_value_from_domain, crate::engine::Assignments::stub_remove_value_from_domain)]
+        #[kani::stub(crate::engine::Assignments::make_assignment, crate::engine::Assignments::stub_make_assignment)]
+        #[kani::stub(<crate::engine::IntegerDomainIterator as core::iter::Iterator>::next, crate::engine::IntegerDomainIterator::stub_next)]
         #[kani::stub(crate::engine::reason::ReasonStore::push, crate::engine::reason::ReasonStore::stub_push)]
         #[kani::stub(crate::engine::propagation::PropagatorInitialisationContext::register, crate::engine::propagation::PropagatorInitialisationContext::stub_register)]
         #[kani::stub(crate::engine::Watchers::watch_all, crate::engine::Watchers::stub_watch_all)]
@@ -386,6 +489,10 @@ macro_rules! verif_harness {
     };
 }
 pub(crate) use verif_harness;
+#[cfg(kani)]
+pub(crate) use verif_harness_real_trailed;
+#[cfg(not(kani))]
+pub(crate) use verif_harness as verif_harness_real_trailed;
 
 /// S4: `format!` only feeds panic / assertion messages in the code under test.
 pub(crate) fn stub_format(_args: core::fmt::Arguments<'_>) -> String {
